@@ -77,9 +77,19 @@ impl PlatformShmem {
             )));
         }
 
-        // Set size (idempotent if already the right size)
+        // Grow the object to the requested size if it is smaller (a new object has
+        // size 0). An existing region is never cut: other processes have it mapped
+        // with their own, possibly larger, layout.
         let size_off_t = off_t::try_from(size).unwrap_or(off_t::MAX);
-        if unsafe { ftruncate(fd, size_off_t) } == -1 {
+        let mut stat: libc::stat = unsafe { std::mem::zeroed() };
+        if unsafe { libc::fstat(fd, &raw mut stat) } == -1 {
+            let err = std::io::Error::last_os_error();
+            unsafe { close(fd) };
+            return Err(StorageError::SharedMemory(format!(
+                "fstat failed for {shm_name}: {err}"
+            )));
+        }
+        if stat.st_size < size_off_t && unsafe { ftruncate(fd, size_off_t) } == -1 {
             let err = std::io::Error::last_os_error();
             unsafe { close(fd) };
             return Err(StorageError::SharedMemory(format!(
